@@ -876,6 +876,10 @@ sc_options_load_ini (int package_id, int err_priority,
     else {
       continue;
     }
+    if (iniparser_getstring (dict, key, NULL) == NULL) {
+      /* this is a section heading of the same name, not a value */
+      continue;
+    }
 
     /* access value by key */
     ++item->called;
